@@ -95,6 +95,13 @@ CHECKS = {
             "mappings incl. continuation entries.",
             "mappings start at offset 0 with distinct consecutive lines; Code2/Code3 only non-decreasing lines",
             "DESIGN.md §4 C19"),
+    "C13": ("generated terminating programs compiled by 9 real CPythons, loaded and re-written by xdis (portable path "
+            "on 3.12, native path on the target's own interpreter); round-trip differential through the target's "
+            "marshal.loads, xdis re-load, and execution of both files under the target interpreter",
+            "A rewritten file loads to the same code tree in the target CPython, re-loads identically in xdis and "
+            "runs identically (exit status, stdout, last stderr line) on generated programs for 2.7 and 3.6-3.13.",
+            "target CPython is ground truth; programs are deterministic; object addresses in output are normalised",
+            "DESIGN.md §4 C13"),
 }
 
 NOT_YET = {}
